@@ -4,8 +4,11 @@ package harness
 
 import (
 	"fmt"
+	"strconv"
+	"strings"
 	"testing"
 
+	"github.com/tidwall/geojson"
 	"github.com/tidwall/geojson/geometry"
 	"pgregory.net/rapid"
 	"verifharness/adapt"
@@ -128,9 +131,72 @@ func reencodings(s exact.Shape, kind string) []exact.Shape {
 	return out
 }
 
+// shapeJSON renders a shape as a GeoJSON text (rings closed, rects as five-point rings from the min corner).
+func shapeJSON(s *exact.Shape, scale int) string {
+	num := func(v int64) string { return strconv.FormatFloat(adapt.F(v, scale), 'f', -1, 64) }
+	pos := func(p exact.P) string { return "[" + num(p.X) + "," + num(p.Y) + "]" }
+	seq := func(ps []exact.P) string {
+		var parts []string
+		for _, p := range ps {
+			parts = append(parts, pos(p))
+		}
+		return "[" + strings.Join(parts, ",") + "]"
+	}
+	switch s.K {
+	case exact.KPoint:
+		return `{"type":"Point","coordinates":` + pos(s.Pt) + `}`
+	case exact.KLine:
+		return `{"type":"LineString","coordinates":` + seq(s.Line) + `}`
+	case exact.KRect:
+		return `{"type":"Polygon","coordinates":[` + seq([]exact.P{s.Min, {X: s.Max.X, Y: s.Min.Y}, s.Max, {X: s.Min.X, Y: s.Max.Y}, s.Min}) + `]}`
+	}
+	rings := []string{seq(closeRing(s.Ext))}
+	for _, h := range s.Holes {
+		rings = append(rings, seq(closeRing(h)))
+	}
+	return `{"type":"Polygon","coordinates":[` + strings.Join(rings, ",") + `]}`
+}
+
+var c12ParseOpts = &geojson.ParseOptions{IndexChildren: 64, IndexGeometry: 64, IndexGeometryKind: geometry.QuadTree, AllowRects: true, AllowSimplePoints: true}
+
+// objAnswers parses both shapes with the representation options on and evaluates the four answers at object level.
+func objAnswers(a, b *exact.Shape, scale int) (answers, bool) {
+	if a.K == exact.KRect && (a.Min.X == a.Max.X || a.Min.Y == a.Max.Y) || b.K == exact.KRect && (b.Min.X == b.Max.X || b.Min.Y == b.Max.Y) {
+		// a degenerate rect has no five-point polygon text that means the same
+		return answers{}, false
+	}
+	oa, err1 := geojson.Parse(shapeJSON(a, scale), c12ParseOpts)
+	ob, err2 := geojson.Parse(shapeJSON(b, scale), c12ParseOpts)
+	if err1 != nil || err2 != nil {
+		return answers{}, false
+	}
+	return answers{oa.Contains(ob), ob.Contains(oa), oa.Intersects(ob), ob.Intersects(oa)}, true
+}
+
 func c12Check(c c12Case) fw.Outcome {
 	p := c.Pair
 	base := evalAnswers(adapt.Geom(&p.A, p.EA), adapt.Geom(&p.B, p.EB))
+	if ob, ok := objAnswers(&p.A, &p.B, p.EA.Scale); ok && ob != base {
+		var want answers
+		want[0], _ = exact.Contains(&p.A, &p.B)
+		want[1], _ = exact.Contains(&p.B, &p.A)
+		want[2], _ = exact.Intersects(&p.A, &p.B)
+		want[3] = want[2]
+		for i := range ob {
+			if ob[i] != base[i] {
+				wrong := pairCase{A: p.A, B: p.B, EA: p.EA, EB: p.EB}
+				if i == 1 {
+					wrong.A, wrong.B = p.B, p.A
+				}
+				if i < 2 {
+					if id := c03Known(&wrong, !want[i], want[i], c12Witness(&wrong)); id != "" {
+						continue
+					}
+				}
+				return fw.Failf("parsed-vs-constructed", "%s = %v on the constructed geometries and %v on the objects parsed from their GeoJSON with AllowRects / AllowSimplePoints (exact answer %v); %s", answerNames[i], base[i], ob[i], want[i], pairString(&p))
+			}
+		}
+	}
 	label := fmt.Sprintf("%s/%s-%s", c.T, p.A.K, p.B.K)
 	mixed := (base[0] || base[1] || base[2] || base[3]) && !(base[0] && base[1] && base[2] && base[3])
 	nt := mixed || contactClass(&p.A, &p.B) != "no-boundary-contact"
@@ -190,6 +256,16 @@ func c12Check(c c12Case) fw.Outcome {
 	}
 	for _, v := range vs {
 		got := evalAnswers(v.ga, v.gb)
+		// the same re-encoding through the parser with the representation options on
+		if c.T != "scale" && c.T != "move" {
+			if og, ok := objAnswers(&v.A, &v.B, sc); ok && og != got {
+				for i := range og {
+					if og[i] != got[i] {
+						return fw.Failf(label, "%s = %v on the constructed geometries and %v on the parsed objects after %s; A=%v B=%v", answerNames[i], got[i], og[i], v.desc, &v.A, &v.B)
+					}
+				}
+			}
+		}
 		for i := range got {
 			if got[i] == base[i] {
 				continue
@@ -288,3 +364,8 @@ func c12Subs() []fw.Sub {
 }
 
 func TestC12(t *testing.T) { fw.Main(t, "C12", c12Subs(), nil) }
+
+func c12Witness(p *pairCase) *exact.Q {
+	_, w := exact.Contains(&p.A, &p.B)
+	return w
+}
